@@ -98,6 +98,59 @@ def desugar(loc, relfile, fn_paths, rules, _pass=0, optional=()):
                     rewrites.append((a, b, new))
                     records.append({"fn": fp, "rule": "D63 V.retain(|&p| C);  =>  { filtering loop over V into a fresh vector; V = that vector }   (items are Copy, C only reads)",
                                     "original": src[a:b], "rewritten": new})
+            if "D66" in rules or "D67" in rules:
+                # ranges in parentheses followed by an adaptor: (LO..=HI).filter(|b| C).collect::<Vec<_>>()  /  (LO..HI).find(|b| C)
+                seg = src[it["start"]:it["end"]]
+                def _range_before(pos):
+                    """pos: index of the `)` that closes the parenthesised range; returns (open index, lo, hi, inclusive) or None"""
+                    depth, k = 0, pos
+                    while k >= 0:
+                        if seg[k] == ")":
+                            depth += 1
+                        elif seg[k] == "(":
+                            depth -= 1
+                            if depth == 0:
+                                break
+                        k -= 1
+                    if k < 0:
+                        return None
+                    inner = seg[k + 1:pos]
+                    d2 = 0
+                    for j, ch in enumerate(inner):
+                        if ch in "([{":
+                            d2 += 1
+                        elif ch in ")]}":
+                            d2 -= 1
+                        elif d2 == 0 and inner.startswith("..", j):
+                            incl = inner.startswith("..=", j)
+                            return k, inner[:j].strip(), inner[j + (3 if incl else 2):].strip(), incl
+                    return None
+                if "D66" in rules:
+                    for m in re.finditer(r"\)\s*\.filter\(\|([a-z_][a-z_0-9]*)\| ([^\n]+)\)\s*\.collect::<Vec<_>>\(\)", seg):
+                        rb = _range_before(m.start())
+                        if not rb or not rb[3]:
+                            continue
+                        k, lo, hi, _ = rb
+                        v, C = m.group(1), m.group(2)
+                        new = (f"{{ let mut pv_c = Vec::new(); let pv_hi = {hi}; let mut pv_v = {lo}; let mut pv_go = pv_v <= pv_hi; while pv_go {{ "
+                               f"{{ let {v} = &pv_v; if {C} {{ pv_c.push(pv_v); }} }} if pv_v < pv_hi {{ pv_v += 1; }} else {{ pv_go = false; }} }} pv_c }}")
+                        a0, b0 = it["start"] + k, it["start"] + m.end()
+                        rewrites.append((a0, b0, new))
+                        records.append({"fn": fp, "rule": "D66 (LO..=HI).filter(|b| C).collect::<Vec<_>>()  =>  { counting loop over LO..=HI pushing the values for which C holds }   (no overflow at HI == i32::MAX: the counter is not incremented past HI)",
+                                        "original": src[a0:b0], "rewritten": new})
+                if "D67" in rules:
+                    for m in re.finditer(r"\)\s*\.find\(\|([a-z_][a-z_0-9]*)\| ([^\n]+)\)", seg):
+                        rb = _range_before(m.start())
+                        if not rb or rb[3]:
+                            continue
+                        k, lo, hi, _ = rb
+                        v, C = m.group(1), m.group(2)
+                        new = (f"{{ let mut pv_f: Option<i32> = None; let pv_hi = {hi}; let mut pv_v = {lo}; while pv_v < pv_hi {{ "
+                               f"if {{ let {v} = &pv_v; {C} }} {{ pv_f = Some(pv_v); break; }} pv_v += 1; }} pv_f }}")
+                        a0, b0 = it["start"] + k, it["start"] + m.end()
+                        rewrites.append((a0, b0, new))
+                        records.append({"fn": fp, "rule": "D67 (LO..HI).find(|b| C)  =>  { search loop over LO..HI: Some(first value for which C holds) or None }",
+                                        "original": src[a0:b0], "rewritten": new})
             if "D64" in rules:
                 # (E as f64 / 2.0).floor() as i32  =>  pv_half_floor(E)   (E a non-negative i32: exact in f64)
                 seg = src[it["start"]:it["end"]]
